@@ -505,7 +505,7 @@ fn distinct_time_case() -> impl Strategy<Value = JobCase> {
 				f.gap = f.gap.max(10);
 			}
 			JobCase {
-				sim: SimSpec { children, spawn_fail, kill_fail, signal_fail },
+				sim: SimSpec { async_api: (children.len() + spawn_fail.len() + signal_fail.len()) % 3 == 1, children, spawn_fail, kill_fail, signal_fail },
 				steps,
 				track: false,
 				sched,
